@@ -5,6 +5,7 @@
 //   - Config.SetDefaults and the default constants (config/config.go) -> Gen_Config.v
 //   - the serve flags and their wiring into config.Config (cmd/olareg/serve.go) -> Gen_Flags.v
 //   - regular-expression literals, file-name and annotation constants -> Gen_Consts.v
+//
 // Unrecognised shapes make it fail loudly (exit 2): it never guesses.
 package main
 
